@@ -124,6 +124,9 @@ func c16RunHist(cs *c16Case) {
 			} else {
 				o.Res = "ok"
 			}
+		case "deldir": // Delete of a name that is no key but the directory part of keys: whatever it answers, no key goes away
+			_ = st.Delete(ctx, o.Key)
+			o.Res = "ok"
 		case "clear":
 			if err := st.Clear(ctx); err != nil {
 				o.Res = "err"
@@ -198,6 +201,9 @@ func c16Coq(cs *c16Case) string {
 		case "del":
 			ops[i] = "OpDelete " + S(o.Key)
 			obs[i] = "ObsRes " + map[string]string{"ok": "LOk", "err": "LNotFound"}[o.Res]
+		case "deldir":
+			ops[i] = "OpDelete " + S(o.Key)
+			obs[i] = "ObsRes LOk"
 		case "clear":
 			ops[i] = "OpClear"
 			obs[i] = "ObsRes " + map[string]string{"ok": "LOk", "err": "LNotFound"}[o.Res]
@@ -237,6 +243,25 @@ func c16Hist(r *gen.Rand, n int, backend string) *c16Case {
 			cs.Ops = append(cs.Ops, c16Op{Op: "clear"})
 			if r.Bool() {
 				cs.Ops = append(cs.Ops, c16Op{Op: "list", Prefix: "", Count: 1000})
+			}
+			continue
+		}
+		if r.Chance(1, 12) { // names that are the directory part of keys (or were, before deletes): not keys
+			d := dirs[r.Intn(len(dirs))]
+			if r.Bool() {
+				d = d[:strings.Index(d, "/")]
+			}
+			k := r.Intn(3)
+			if backend != "os" {
+				k = 0 // afero's in-memory file system reads a directory as an empty file and panics when one is removed in some states: real directories only
+			}
+			switch k {
+			case 0:
+				cs.Ops = append(cs.Ops, c16Op{Op: "has", Key: d})
+			case 1:
+				cs.Ops = append(cs.Ops, c16Op{Op: "get", Key: d})
+			default:
+				cs.Ops = append(cs.Ops, c16Op{Op: "deldir", Key: d}, c16Op{Op: "list", Prefix: "", Count: 1000})
 			}
 			continue
 		}
@@ -302,7 +327,7 @@ func init() {
 		c.CaseTy = "xcase"
 		c.Report = "report"
 		c.PerFile = 40
-		c.Rule = "random histories of put (plain and create-if-absent) / get / has / delete / clear / complete paged listings over hierarchical keys whose components prefix one another and contain bytes below '/', prefixes with and without trailing slash, delimiters, page sizes 1..1000, on afero MemMapFs and on a real directory (BasePathFs over OsFs); concurrent create-if-absent writers of one key; non-trivial = history with a listing that returned at least two names, or an exclusive-write race, distinct by content"
+		c.Rule = "random histories of put (plain and create-if-absent) / get / has / delete / clear / complete paged listings, also has / get / delete of names that are only the directory part of keys, over hierarchical keys whose components prefix one another and contain bytes below '/', prefixes with and without trailing slash, delimiters, page sizes 1..1000, on afero MemMapFs and on a real directory (BasePathFs over OsFs); concurrent create-if-absent writers of one key; non-trivial = history with a listing that returned at least two names, or an exclusive-write race, distinct by content"
 		emit := func(cs *c16Case) {
 			key, class := "", cs.Kind+"/"+cs.Backend
 			if cs.Kind == "excl" {
